@@ -58,6 +58,15 @@ if wave == "g":
              "full_sync_zero_copy.rs), src/multi/channels/reference/mmap_log.rs, src/multi/channels/arc/crossbeam.rs and src/uni/channels/movable/crossbeam.rs, src/instruments.rs. "
              "Any style of the earlier rounds is fine (slip, disguised refactor, additive fast path, contract drift, conditional). Keep each change small (1-15 lines), plausible, and make sure it "
              "breaks THIS property and satisfies (a)-(d). If the property cannot be broken from any of those files, say so and use the closest glue code you can find.\n\n")
+if wave == "h":
+    WAVE2 = ("This is an EIGHTH ROUND. Earlier rounds covered slips at the main mechanism, cooperating edits, disguised refactorings, additive fast paths, contract drift, "
+             "configuration-conditional defects and rarely-touched files. This time put the defect on an ERROR, TIMEOUT, TEARDOWN, CANCELLATION or EXHAUSTION path -- code that ordinary "
+             "runs and the test-suite reach rarely or never: what happens when a bounded timeout expires inside flush / end_stream / end_all_streams / close; when MAX_STREAMS ids are "
+             "exhausted or an id is recycled right after a drop; when a channel / Uni / Multi is dropped with live streams or buffered events; when a stream ends by cancellation rather "
+             "than by draining; when the pool or the ring is empty / full at the moment of the call; when crossbeam reports Disconnected; when a `send_with_async` future is DROPPED while "
+             "its setter is suspended (cancellation safety: reserved slot, held lock, pre-loaded references); when an executor's item future errors or times out on the LAST item; when a "
+             "close callback is slow; when `report_full_fn` / `report_empty_fn` answer true; Drop impls and `drop_resources`. The change must still break THIS property inside its quantifier "
+             "and satisfy (a)-(d); keep it small (1-15 lines) and plausible.\n\n")
 print(f"""You are helping to test a verification tool by playing the adversary. You have your own scratch git worktree of a Rust library
 (zertyz/reactive-mutiny: async reactive event library with Uni/Multi channels over custom lock-free queues, pool allocators, OgreArc refcounting,
 an mmap log channel and stream executors) at {wt}. Work ONLY inside {wt} and {wt}-out. Never read or write /repo or /verif.
